@@ -74,6 +74,23 @@ def variant(rng, j, expanded):
             "interp poke ip0 1"]
 
 
+def boundary_pokes(rng):
+    from checks import alu_common
+    pokes = ["interp poke %s %x" % (f, alu_common.acc(rng)) for f in ("a0", "a1", "b0", "b1")]
+    if rng.chance(1, 2):
+        # same-sign products of graded size, no product shift: base +/- p0 -/+ p1 overflows twice
+        sign = rng.below(2)
+        mags = sorted(rng.choice([1, 0x8000, 0x10000000, 0x20000000, 0x3FFFFFFF, 0x7FFFFFFF, rng.bits(31)]) for _ in range(2))
+        for f, m in zip(("p0", "p1"), mags if rng.chance(3, 4) else mags[::-1]):
+            pokes.append("interp poke %s %x" % (f, (-m if sign else m) & 0xFFFFFFFF))
+        pokes += ["interp poke pe0 %x" % sign, "interp poke pe1 %x" % sign, "interp poke ps0 0", "interp poke ps1 0"]
+    else:
+        pokes += ["interp poke %s %x" % (f, rng.biased(32)) for f in ("p0", "p1") if rng.chance(1, 2)]
+    pokes += ["interp poke %s %x" % (f, rng.biased(16)) for f in ("x0", "y0", "x1", "y1", "sv") if rng.chance(1, 2)]
+    pokes += ["interp poke sata %x" % rng.below(2), "interp poke sat %x" % rng.below(2)]
+    return pokes
+
+
 def explore(rng, tier, replay=None):
     only = os.environ.get("VERIF_ONLY")
     nstates = int(os.environ.get("VERIF_STATES", "3" if tier == "quick" else "32"))
@@ -93,6 +110,10 @@ def explore(rng, tier, replay=None):
             seed = rng.bits(40)
             e = rng.biased(16)
             scripts.append(["interp gen %x" % seed] + variant(rng, j, x) + ["interp step %x %x" % (w, e)])
+        # one more state per opcode with the accumulators, products and factors at arithmetic boundary values
+        # (correlated: the products share a sign and the accumulators sit next to the 40-bit limits, so that
+        # intermediate sums overflow in both directions)
+        scripts.append(["interp gen %x" % rng.bits(40)] + boundary_pokes(rng) + ["interp step %x %x" % (w, rng.biased(16))])
 
     def signature(script, impl):
         if len(script) < 2 or len(script[-1].split()) < 3:
